@@ -3,6 +3,7 @@ package main
 import (
 	"fmt"
 	"go/token"
+	"go/types"
 	"strings"
 
 	"golang.org/x/tools/go/ssa"
@@ -465,70 +466,127 @@ func ruleUpscaleGap(w *World, r *RuleResult) {
 	}
 	n := 0
 	var bad []string
-	for _, b := range f.Blocks {
-		rt, ok := b.Instrs[len(b.Instrs)-1].(*ssa.Return)
-		if !ok || !w.isErrorReturn(rt) {
-			continue
+	// upscale and the unexported error-returning helpers the test may have been moved into
+	top := f
+	scope := []*ssa.Function{top}
+	for _, ci := range callsIn(top) {
+		if h := callee(ci); h != nil && w.inPkg(h) && h != top && len(h.Blocks) > 0 && (h.Object() == nil || !h.Object().Exported()) {
+			res := h.Signature.Results()
+			if res.Len() > 0 && isErrorType(res.At(res.Len()-1).Type()) {
+				scope = append(scope, h)
+			}
 		}
-		n++
-		good := false
-		tooLow := ""
-		var seen []string
-		for _, g := range guardsAt(b) {
-			bo, isB := g.Cond.(*ssa.BinOp)
-			if !isB {
+	}
+	for _, f := range scope {
+		for _, b := range f.Blocks {
+			rt, ok := b.Instrs[len(b.Instrs)-1].(*ssa.Return)
+			if !ok || !w.isErrorReturn(rt) {
 				continue
 			}
-			seen = append(seen, w.exprOf(f, g.Cond).String())
-			k, isK := bo.Y.(*ssa.Const)
-			if !isK || !g.Val || (bo.Op != token.GTR && bo.Op != token.GEQ) {
-				continue
-			}
-			// the compared value: a difference of the two (converted) Exponent loads, possibly plus a constant;
-			// the effective bound on the difference must be at least 2·MaxExponent — the exponents of two
-			// operands inside the package limits differ by up to that much (Add(1E+100000, 1E-100000) has a
-			// result, 1.0000E+100000 at Precision 5). Whether the difference is taken before or after the
-			// operands are ordered does not matter below that bound: a negative difference is never refused.
-			x, off := bo.X, int64(0)
-			if add, isAdd := x.(*ssa.BinOp); isAdd && (add.Op == token.ADD || add.Op == token.SUB) {
-				if kc, isKC := add.Y.(*ssa.Const); isKC && kc.Value != nil {
-					x = add.X
-					off = ci(kc)
-					if add.Op == token.SUB {
-						off = -off
+			// a failure handed up from a helper of the scope is judged at the helper's own failing return
+			delegated := false
+			for _, g := range guardsAt(b) {
+				if bo, isB := g.Cond.(*ssa.BinOp); isB && (bo.Op == token.NEQ) == g.Val {
+					for _, o := range []ssa.Value{bo.X, bo.Y} {
+						var hc *ssa.Call
+						switch x := o.(type) {
+						case *ssa.Call:
+							hc = x
+						case *ssa.Extract:
+							hc, _ = x.Tuple.(*ssa.Call)
+						}
+						if hc != nil {
+							for _, h := range scope[1:] {
+								if callee(hc) == h {
+									delegated = true
+								}
+							}
+						}
 					}
 				}
 			}
-			sub, isSub := x.(*ssa.BinOp)
-			if !isSub || sub.Op != token.SUB {
+			if delegated {
 				continue
 			}
-			isDiff := true
-			for _, o := range []ssa.Value{sub.X, sub.Y} {
-				if !strings.Contains(w.exprOf(f, o).String(), ".Exponent") {
+			n++
+			good := false
+			tooLow := ""
+			var seen []string
+			for _, g := range guardsAt(b) {
+				bo, isB := g.Cond.(*ssa.BinOp)
+				if !isB {
+					continue
+				}
+				seen = append(seen, w.exprOf(f, g.Cond).String())
+				k, isK := bo.Y.(*ssa.Const)
+				if !isK || !g.Val || (bo.Op != token.GTR && bo.Op != token.GEQ) {
+					continue
+				}
+				// the compared value: a difference of the two (converted) Exponent loads, possibly plus a constant;
+				// the effective bound on the difference must be at least 2·MaxExponent — the exponents of two
+				// operands inside the package limits differ by up to that much (Add(1E+100000, 1E-100000) has a
+				// result, 1.0000E+100000 at Precision 5). Whether the difference is taken before or after the
+				// operands are ordered does not matter below that bound: a negative difference is never refused.
+				x, off := bo.X, int64(0)
+				if add, isAdd := x.(*ssa.BinOp); isAdd && (add.Op == token.ADD || add.Op == token.SUB) {
+					if kc, isKC := add.Y.(*ssa.Const); isKC && kc.Value != nil {
+						x = add.X
+						off = ci(kc)
+						if add.Op == token.SUB {
+							off = -off
+						}
+					}
+				}
+				sub, isSub := x.(*ssa.BinOp)
+				if !isSub || sub.Op != token.SUB {
+					continue
+				}
+				// a difference of two exponents: Exponent fields, or an exponent handed in as an integer parameter
+				isDiff, fields := true, 0
+				for _, o := range []ssa.Value{sub.X, sub.Y} {
+					e := w.exprOf(f, o)
+					if strings.Contains(e.String(), ".Exponent") {
+						fields++
+						continue
+					}
+					intParam := false
+					e.walk(func(x *Expr) bool {
+						if pr, isP := x.V.(*ssa.Parameter); isP && x.Op == "param" {
+							if bt, isBasic := pr.Type().Underlying().(*types.Basic); isBasic && bt.Info()&types.IsInteger != 0 {
+								intParam = true
+							}
+						}
+						return true
+					})
+					if !intParam {
+						isDiff = false
+					}
+				}
+				if fields == 0 {
 					isDiff = false
 				}
+				if !isDiff {
+					continue
+				}
+				// D + off > K  ⇔  D > K − off ;  D + off >= K  ⇔  D > K − off − 1
+				bound := ci(k) - off
+				if bo.Op == token.GEQ {
+					bound--
+				}
+				if bound < 2*maxE {
+					tooLow = fmt.Sprintf("the alignment refuses exponent gaps above %d: the exponents of two operands inside the package limits differ by up to %d, so Add(1E+100000, 1E-100000) fails with 'exponent out of range' and no result although 1.0000E+100000 (Inexact, Rounded) is required", bound, 2*maxE)
+					continue
+				}
+				good = true
 			}
-			if !isDiff {
-				continue
+			if !good && tooLow != "" {
+				bad = append(bad, tooLow+fmt.Sprintf(" (the failing return at %s)", w.instrPos(rt)))
+			} else if !good {
+				bad = append(bad, fmt.Sprintf("the failing return at %s is under %s", w.instrPos(rt), short(strings.Join(seen, " ∧ "), 160)))
 			}
-			// D + off > K  ⇔  D > K − off ;  D + off >= K  ⇔  D > K − off − 1
-			bound := ci(k) - off
-			if bo.Op == token.GEQ {
-				bound--
-			}
-			if bound < 2*maxE {
-				tooLow = fmt.Sprintf("the alignment refuses exponent gaps above %d: the exponents of two operands inside the package limits differ by up to %d, so Add(1E+100000, 1E-100000) fails with 'exponent out of range' and no result although 1.0000E+100000 (Inexact, Rounded) is required", bound, 2*maxE)
-				continue
-			}
-			good = true
-		}
-		if !good && tooLow != "" {
-			bad = append(bad, tooLow+fmt.Sprintf(" (the failing return at %s)", w.instrPos(rt)))
-		} else if !good {
-			bad = append(bad, fmt.Sprintf("the failing return at %s is under %s", w.instrPos(rt), short(strings.Join(seen, " ∧ "), 160)))
 		}
 	}
+	f = top
 	switch {
 	case n == 0:
 		r.ok(key, w.pos(f.Pos()), "upscale has no failing return", true)
